@@ -21,6 +21,9 @@ type C18Case struct {
 	EOFData  bool     `json:"eof_with_data,omitempty"`
 	BufSize  int      `json:"bufsize,omitempty"`
 	Truncate int      `json:"truncate,omitempty"` // >0: cut that many bytes off the end (inside the last value)
+	// ZeroReads > 0: the reader answers one Read with (0, nil) before every
+	// ZeroReads-th Read that returns data or io.EOF
+	ZeroReads int `json:"zero_reads,omitempty"`
 }
 
 func (c *C18Case) stream() ([]byte, []int) {
@@ -108,7 +111,10 @@ func checkC18(ci any, info *CaseInfo) string {
 		if bs <= 0 {
 			bs = 64
 		}
-		dec = cd.NewDecoder(&chunkReader{chunks: cloneChunks(gen.Split(stream, c.Cuts)), eofWithData: c.EOFData}, bs, rec)
+		dec = cd.NewDecoder(&chunkReader{chunks: cloneChunks(gen.Split(stream, c.Cuts)), eofWithData: c.EOFData, zeroEvery: c.ZeroReads}, bs, rec)
+		if c.ZeroReads > 0 {
+			info.Class("reader:zero_length_reads")
+		}
 	}
 	desc := fmt.Sprintf("%s decoder (bytes=%v buf=%d cuts=%v eofWithData=%v) over %d documents %q", c.Format, c.Bytes, c.BufSize, truncInts(c.Cuts), c.EOFData, len(c.Docs), trunc(stream))
 	k := len(c.Docs)
@@ -197,6 +203,9 @@ func drawC18(t *rapid.T) any {
 		c.BufSize = rapid.SampledFrom([]int{1, 2, 3, 5, 8, 16, 64, 512, 4096}).Draw(t, "bufsize")
 		c.EOFData = rapid.Bool().Draw(t, "eofdata")
 		c.Cuts = gen.Cuts(t, len(stream), nil)
+		if rapid.IntRange(0, 3).Draw(t, "zeroreads") == 0 {
+			c.ZeroReads = rapid.IntRange(1, 3).Draw(t, "zeroevery")
+		}
 		// aim some read boundaries exactly at document boundaries
 		if len(bounds) > 1 && rapid.Bool().Draw(t, "aimb") {
 			b := bounds[rapid.IntRange(0, len(bounds)-2).Draw(t, "aimbi")]
@@ -236,7 +245,7 @@ func dedupInts(a []int) []int {
 func init() {
 	register(&Property{
 		ID:    "C18",
-		Rule:  "k in 0..5 valid documents (own and foreign producers; JSON whitespace-separated incl. top-level scalars) x {NewBytesDecoder, NewDecoder(reader)} x reader schedules (read sizes from the chunk generator, boundaries aimed at document boundaries, data returned with or before io.EOF) x buffer sizes 1..4096 x optional truncation inside the last value; oracle = Next #i succeeds with exactly the events of document i (one-shot Parse), Next #k+1 = io.EOF with no events, a truncated last value ends in an error other than io.EOF; deterministic part: 9 small streams x every single read boundary x buffer sizes {1,2,3,64} x {data with EOF, data before EOF} and every truncation position of the last document; non-trivial = k>=2, or a read boundary inside a token / on a document boundary, or a truncated stream; distinct by case hash",
+		Rule:  "k in 0..5 valid documents (own and foreign producers; JSON whitespace-separated incl. top-level scalars) x {NewBytesDecoder, NewDecoder(reader)} x reader schedules (read sizes from the chunk generator, boundaries aimed at document boundaries, data returned with or before io.EOF) x buffer sizes 1..4096 x 1 in 4 readers that answer a Read with (0, nil) before every 1st..3rd data read x optional truncation inside the last value; oracle = Next #i succeeds with exactly the events of document i (one-shot Parse), Next #k+1 = io.EOF with no events, a truncated last value ends in an error other than io.EOF; deterministic part: 9 small streams x every single read boundary x buffer sizes {1,2,3,64} x {data with EOF, data before EOF} x {no, every} zero-length read and every truncation position of the last document; non-trivial = k>=2, or a read boundary inside a token / on a document boundary, or a truncated stream; distinct by case hash",
 		New:   func() any { return &C18Case{} },
 		Draw:  drawC18,
 		Check: checkC18,
